@@ -26,7 +26,8 @@
 From JV Require Import Lib.Base.
 
 Inductive kind := KInt | KStr.
-Record copt := { co_name : str; co_callable : bool }.
+(* a class-typed option: its name, the base class of its type, whether the type is Callable[[int], <base>] *)
+Record copt := { co_name : str; co_base : str; co_callable : bool }.
 (* pd_dc: the parser has the option d : Optional[Data], Data a dataclass with fields a : int = 0, b : int = 0,
    added from a signature (add_class_arguments), so that the action's sub_add_kwargs is the non-empty dict that
    adapt_typehints receives by reference *)
@@ -105,6 +106,9 @@ Definition s_z : str := [122]%N.
 Definition s_0 : str := [48]%N.
 Definition s_Fac : str := [99;48;57;95;99;108;97;115;115;101;115;46;70;97;99]%N.   (* c09_classes.Fac *)
 Definition dv0 : dv := (s_0, s_0).
+Definition s_LBase : str := [76;66;97;115;101]%N.
+Definition s_WD : str := [87;68]%N.
+Definition s_WO : str := [87;79]%N.
 Definition s_comments : str := [99;111;109;109;101;110;116;115]%N.
 Definition s_skip_default : str := [115;107;105;112;95;100;101;102;97;117;108;116]%N.
 Definition s_skip_null : str := [115;107;105;112;95;110;117;108;108]%N.
@@ -142,25 +146,33 @@ Fixpoint aset {A} (k : str) (v : A) (l : list (str * A)) : list (str * A) :=
 Definition find_cls (n : str) (pd : pdecl) : option copt :=
   find (fun c => str_eqb (co_name c) n) (pd_cls pd).
 
-(* the component classes of the harness (tie/impl/c09_classes.py): name, is it a Base, __init__ parameters.
+(* the component classes of the harness (tie/impl/c09_classes.py): name, (base it belongs to, is it a subclass of
+   that base, settable __init__ parameters).
    Fac is a callable class that is no Base: fine for Callable[[int], Base] (all its parameters, nothing skipped),
-   rejected for Base and by the class help *)
-Definition class_table : list (str * (bool * list (str * kind))) :=
-  [ (s_Base, (true, [(s_a, KInt)]));
-    (s_SubA, (true, [(s_a, KInt); (s_c, KInt)]));
-    (s_SubB, (true, [(s_a, KInt); (s_b, KStr)]));
-    (s_Fac, (false, [(s_a, KInt); (s_z, KInt)])) ].
-(* parameters settable through an option of type Base (callable = false) or Callable[[int], Base] (true): for a
-   Base the first positional parameter is supplied by the caller and skipped *)
-Definition cls_for_opt (callable : bool) (c : str) : option (list (str * kind)) :=
+   rejected for Base and by the class help.
+   WD(o: dict, a: int = 1) and WO(o: Data, a: int = 1) are the subclasses of LBase; their parameter o is the target
+   of a parse-time link from the group g (link_arguments("g", "lm.init_args.o"), no compute_fn) and not listed.
+   LBase itself takes no parameter and is not listed: init_args without a class are rejected. *)
+Definition class_table : list (str * (str * bool * list (str * kind))) :=
+  [ (s_Base, (s_Base, true, [(s_a, KInt)]));
+    (s_SubA, (s_Base, true, [(s_a, KInt); (s_c, KInt)]));
+    (s_SubB, (s_Base, true, [(s_a, KInt); (s_b, KStr)]));
+    (s_Fac, (s_Base, false, [(s_a, KInt); (s_z, KInt)]));
+    (s_WD, (s_LBase, true, [(s_a, KInt)]));
+    (s_WO, (s_LBase, true, [(s_a, KInt)])) ].
+(* parameters settable through an option of type <base> (callable = false) or Callable[[int], <base>] (true): for a
+   subclass of the base the first positional parameter is supplied by the caller and skipped *)
+Definition cls_for_opt (base : str) (callable : bool) (c : str) : option (list (str * kind)) :=
   match alookup c class_table with
   | None => None
-  | Some (sub, ps) => if sub then Some (if callable then tl ps else ps) else if callable then Some ps else None
+  | Some (b, sub, ps) =>
+      if negb (str_eqb b base) then None
+      else if sub then Some (if callable then tl ps else ps) else if callable then Some ps else None
   end.
-(* the class help only knows Bases *)
-Definition cls_for_help (skip : bool) (c : str) : option (list (str * kind)) :=
+(* the class help only knows subclasses of the base *)
+Definition cls_for_help (base : str) (skip : bool) (c : str) : option (list (str * kind)) :=
   match alookup c class_table with
-  | Some (true, ps) => Some (if skip then tl ps else ps)
+  | Some (b, true, ps) => if str_eqb b base then Some (if skip then tl ps else ps) else None
   | _ => None
   end.
 
@@ -261,25 +273,24 @@ Definition apply_local (fx : fixes) (dd0 : option dv) (pd : pdecl) (prefix : str
         else d_assign fx dd0 true c None None true
     end
   else
+  match alookup k (pd_opts pd) with   (* plain options; the fields g.a, g.b of a group under their dotted names *)
+  | Some kd => if val_ok kd v then IOk (give (prefix ++ k) c) else IBad c
+  | None =>
   match rest with
   | None =>
-      match alookup h (pd_opts pd) with
-      | Some kd => if val_ok kd v then IOk (give (prefix ++ h) c) else IBad c
-      | None =>
-          match find_cls h pd with
-          | Some co =>
-              match cls_for_opt (co_callable co) v with
-              | Some _ => IOk (with_sel (aset h v (ic_sel c)) c)
-              | None => IBad c
-              end
-          | None => IUnknown
+      match find_cls h pd with
+      | Some co =>
+          match cls_for_opt (co_base co) (co_callable co) v with
+          | Some _ => IOk (with_sel (aset h v (ic_sel c)) c)
+          | None => IBad c
           end
+      | None => IUnknown
       end
   | Some param =>
       match find_cls h pd with
       | Some co =>
-          let cl := match alookup h (ic_sel c) with Some x => x | None => s_Base end in
-          match cls_for_opt (co_callable co) cl with
+          let cl := match alookup h (ic_sel c) with Some x => x | None => co_base co end in
+          match cls_for_opt (co_base co) (co_callable co) cl with
           | Some ps =>
               match alookup param ps with
               | Some kd => if val_ok kd v then IOk (with_sel (aset h cl (ic_sel c)) c) else IBad c
@@ -289,6 +300,7 @@ Definition apply_local (fx : fixes) (dd0 : option dv) (pd : pdecl) (prefix : str
           end
       | None => IUnknown
       end
+  end
   end.
 
 (* one key/value of a dict-like source (object, string, config content, environment) against the
@@ -520,7 +532,7 @@ Fixpoint scan_root (fx : fixes) (dd0 : option dv) (D : decl) (i : nat) (hs : boo
                  there; repaired: works on a copy, nothing shared is read or written *)
               let sk := if fx_hs fx then co_callable co else hs || co_callable co in
               let hs' := if fx_hs fx then hs else sk in
-              match cls_for_help sk v with
+              match cls_for_help (co_base co) sk v with
               | None => stop (OErr EPre)
               | Some ps =>
                   match r with
